@@ -82,8 +82,21 @@ func corpus(seed int64, n int) []doc {
 			body:   []byte(fmt.Sprintf(`{"service":"%s","k8s_pod":"%s","message":"m%d %s"}`, svcName(seed, g), podName(seed, i), i, pad)),
 			tokens: []string{"_all_:", "service:" + svcName(seed, g), "k8s_pod:" + podName(seed, i)},
 		}
+		if os.Getenv("VERIF_WIDE") != "" { // many different field names of varying length: a token table of several blocks
+			docs[i].tokens = append(docs[i].tokens, wideTokens(seed, i)...)
+		}
 	}
 	return docs
+}
+
+// wideTokens: six fields that only document i carries, names and values of varying length
+func wideTokens(seed int64, i int) []string {
+	var res []string
+	for j := 0; j < 6; j++ {
+		name := fmt.Sprintf("f%d_%04d_%d%s", seed, i, j, strings.Repeat("n", (i*7+j*13)%23))
+		res = append(res, name+":v"+strings.Repeat("w", (i+j*5)%11))
+	}
+	return res
 }
 
 // podName is unique per document and long enough for the token blocks of a 1500-document fraction to exceed one block
@@ -175,13 +188,35 @@ func childMain(args []string) {
 			}
 		}
 	}
-	byToken := 0
+	byToken, tokWant := 0, 0
 	for i := 0; i < n; i += max(1, n/40) {
+		tokWant++
 		for _, id := range query("k8s_pod:" + podName(seed, i)) {
 			if id == docs[i].id {
 				byToken++
 			} else {
 				extra++
+			}
+		}
+		if os.Getenv("VERIF_WIDE") != "" { // every field that only this document carries finds exactly it
+			for _, t := range wideTokens(seed, i) {
+				tokWant++
+				ast, err := parser.ParseSeqQL(t, nil)
+				if err != nil {
+					panic(err)
+				}
+				qpr, err := searcher.SearchDocs(ctx, fm.GetAllFracs(), processor.SearchParams{AST: ast.Root, From: 0, To: math.MaxUint64, Limit: 10, Order: seq.DocsOrderDesc})
+				if err != nil {
+					searchErr = "search-error"
+					continue
+				}
+				for _, id := range qpr.IDs.IDs() {
+					if id == docs[i].id {
+						byToken++
+					} else {
+						extra++
+					}
+				}
 			}
 		}
 	}
@@ -209,7 +244,7 @@ func childMain(args []string) {
 			}
 		}
 	}
-	say("OBS n=%d found=%d extra=%d bytoken=%d exact=%d missing=%d wrong=%d %s %s", n, len(found), extra, byToken, exact, missing, wrong, searchErr, fetchErr)
+	say("OBS n=%d found=%d extra=%d bytoken=%d exact=%d missing=%d wrong=%d tokwant=%d %s %s", n, len(found), extra, byToken, exact, missing, wrong, tokWant, searchErr, fetchErr)
 	os.Exit(0)
 }
 
@@ -297,10 +332,10 @@ func runChild(dir string, seed int64, n int, skip, keep bool, extra ...string) c
 			}
 		case strings.HasPrefix(l, "OBS "):
 			res.detail = l
-			var nn, found, extra, byTok, exact, missing, wrong int
-			fmt.Sscanf(l, "OBS n=%d found=%d extra=%d bytoken=%d exact=%d missing=%d wrong=%d", &nn, &found, &extra, &byTok, &exact, &missing, &wrong)
+			var nn, found, extra, byTok, exact, missing, wrong, tokWant int
+			fmt.Sscanf(l, "OBS n=%d found=%d extra=%d bytoken=%d exact=%d missing=%d wrong=%d tokwant=%d", &nn, &found, &extra, &byTok, &exact, &missing, &wrong, &tokWant)
 			switch {
-			case found == nn && exact == nn && extra == 0 && wrong == 0 && missing == 0 && byTok > 0:
+			case found == nn && exact == nn && extra == 0 && wrong == 0 && missing == 0 && byTok == tokWant && byTok > 0:
 				res.served = "all"
 			case found == 0 && exact == 0:
 				res.served = "none"
@@ -605,6 +640,7 @@ type harness struct {
 	chWriter  *vh.Channel
 	orOffsets *vh.Oracle
 	orBig     *vh.Oracle
+	orConc    *vh.Oracle
 	tplDir    string // valid files of one fraction (docs, meta from the active fraction; sdocs, index from its sealed form)
 	tplBase   string
 }
@@ -877,6 +913,70 @@ func (h *harness) bigSeal(n, pad int, seed int64) {
 		h.rep.Violate(vh.Violation{Site: "frac/active_sealer.go:writeSortedDocs", Class: "large-fraction-unfetchable-after-seal",
 			What: fmt.Sprintf("fraction with %d documents, .sdocs of %d bytes (writer buffer 32 MiB): after seal and restart it serves %q: %s", n, sdocs, res.served, res.detail), Replay: []string{key}})
 	}
+}
+
+// concurrentSeals: k differently shaped fractions are filled one after the other, each rotated out and handed to a
+// sealing goroutine at once (the maintenance loop's `go fm.seal(active)`), so that the sealings overlap; then a restart
+// must serve every document of every fraction.
+func (h *harness) concurrentSeals(k, n int, seed int64) {
+	work, _ := os.MkdirTemp(h.work, "cs")
+	defer os.RemoveAll(work)
+	os.Setenv("VERIF_WIDE", "1")
+	defer os.Unsetenv("VERIF_WIDE")
+	exe, _ := os.Executable()
+	ctx, cancel := context.WithTimeout(context.Background(), 300*time.Second)
+	defer cancel()
+	cmd := exec.CommandContext(ctx, exe, "multisealchild", work, fmt.Sprint(seed), fmt.Sprint(n), fmt.Sprint(k))
+	var out bytes.Buffer
+	cmd.Stdout = &out
+	cmd.Stderr = io.Discard
+	err := cmd.Run()
+	key := fmt.Sprintf("concurrent k=%d n=%d seed=%d", k, n, seed)
+	if !strings.Contains(out.String(), "SEALED") {
+		h.rep.Violate(vh.Violation{Site: "fracmanager/fracmanager.go:seal", Class: "concurrent-seals-fail",
+			What: fmt.Sprintf("%d fractions sealed at the same time: the process did not finish: %v %s", k, err, out.String()), Replay: []string{key}})
+		return
+	}
+	for i := 0; i < k; i++ {
+		ni := n + i*n/3
+		res := runChild(work, seed+int64(i), ni, false, false)
+		h.orConc.Case(fmt.Sprintf("%s fraction=%d", key, i), true, "served="+res.served)
+		if res.served != "all" {
+			h.rep.Violate(vh.Violation{Site: "disk/blocks_writer.go:WriteBlock", Class: "concurrent-seals-corrupt-index",
+				What: fmt.Sprintf("%d fractions sealed at the same time (goroutines as in the maintenance loop); after a restart fraction %d (%d documents) serves %q: %s", k, i, ni, res.served, res.detail), Replay: []string{key}})
+			break
+		}
+	}
+}
+
+// multisealchild <dir> <seed> <n> <k>
+func multiSealChildMain(args []string) {
+	logger.SetLevel(zapcore.FatalLevel)
+	dir := args[0]
+	seed, _ := strconv.ParseInt(args[1], 10, 64)
+	n, _ := strconv.Atoi(args[2])
+	k, _ := strconv.Atoi(args[3])
+	fm := fracmanager.NewFracManager(fmConfig(dir, false, false))
+	if err := fm.Load(context.Background()); err != nil {
+		fmt.Println("LOADERR", err)
+		os.Exit(3)
+	}
+	var waits []func()
+	for i := 0; i < k; i++ {
+		for _, b := range bulks(corpus(seed+int64(i), n+i*n/3), 200) {
+			if err := fm.Append(context.Background(), b[0], b[1]); err != nil {
+				fmt.Println("APPENDERR", err)
+				os.Exit(4)
+			}
+		}
+		fm.WaitIdle()
+		waits = append(waits, fracmanager.VerifC08RotateSealAsync(fm))
+	}
+	for _, w := range waits {
+		w()
+	}
+	fmt.Println("SEALED")
+	os.Exit(0)
 }
 
 // syncFault seals through the real FracManager while one seal output cannot be fsynced; the seal must fail without
@@ -1483,6 +1583,10 @@ func main() {
 		childMain(os.Args[2:])
 		return
 	}
+	if len(os.Args) > 1 && os.Args[1] == "multisealchild" {
+		multiSealChildMain(os.Args[2:])
+		return
+	}
 	if len(os.Args) > 1 && os.Args[1] == "sealchild" {
 		sealChildMain(os.Args[2:])
 		return
@@ -1509,6 +1613,7 @@ func main() {
 		chWriter:  vh.NewChannel("writer.bytes", "the real bytespool.Writer (buffer capacity set exactly) over a scripted downstream io.Writer (each call: everything taken / error after k bytes / short write of k bytes) vs SV.BufWriter.exec: result of every Write (n, error) and Flush, the bytes delivered downstream, the buffer fill; exhaustive for capacities 1..4 over all sequences of up to 3 commands with lengths {0,1,c-1,c,c+1,2c+1} and one downstream failure in each of the first 3 calls, random beyond (capacity <= 64, <= 14 commands, several failures); non-trivial = more than one command"),
 		orOffsets: vh.NewOracle("sdocs.offsets", "the sorted-docs writer (real docBlocksWriter + bytespool.Writer) with writer buffers of 64 B .. 100 kB, so that blocks straddle the buffer boundary: every recorded block offset is the byte position at which that block starts in the output and the blocks cover the output exactly; non-trivial = more than one downstream write"),
 		orBig:     vh.NewOracle("seal.big", "a fraction whose compressed sorted docs exceed the 32 MiB writer buffer (incompressible 4 KiB documents), sealed through the real FracManager in a child, restarted, every document searched and fetched; non-trivial = .sdocs larger than 32 MiB"),
+		orConc:    vh.NewOracle("seal.concurrent", "k wide fractions of different sizes filled one after the other, each rotated out and sealed in its own goroutine immediately (as the maintenance loop does), so the sealings overlap; after they finished and a restart every document of every fraction is searched (by group, by unique token, by its own fields) and fetched"),
 		orSync:    vh.NewOracle("seal.syncfault", "the real rotate + proxyFrac.Seal in a child process in which one seal output (._index, ._sdocs) cannot be fsynced (pre-created as a symlink to /dev/null: writes succeed, fsync returns EINVAL): the seal must fail, the output must not get its final name, and a restart must serve every document"),
 		orSys:     vh.NewOracle("seal.syscalls.order", "durable before visible on the system calls of a real seal (child under strace, independent of the hook points): every rename of a temporary seal output to its final name is directly preceded - as far as that file is concerned - by its fsync"),
 		chSys:     vh.NewChannel("seal.syscalls", "the open(O_CREAT|O_TRUNC)/write/fsync/rename/unlink system calls on the sealed fraction's files and the fsync of the data directory, read off an strace of a child that rotates and seals through FracManager, vs SV.SealOps.sealTrace"),
@@ -1530,6 +1635,8 @@ func main() {
 				h.faultRestart(faultCase{kv["skip"] == "1", kv["keep"] == "1", atoi("n"), seed, atoi("k"), kv["persistent"] == "1"})
 			case strings.HasPrefix(l, "crash "), strings.HasPrefix(l, "reseal "):
 				h.crashSweep(kv["skip"] == "1", kv["keep"] == "1", atoi("n"), seed, rng, false)
+			case strings.HasPrefix(l, "concurrent "):
+				h.concurrentSeals(atoi("k"), atoi("n"), seed)
 			case strings.HasPrefix(l, "bigseal "):
 				h.bigSeal(atoi("n"), atoi("pad"), seed)
 			case strings.HasPrefix(l, "sdocsbuf "):
@@ -1568,6 +1675,18 @@ func main() {
 			h.crashSweep(false, true, o.Pick(400, 1500), seed+1, rng, false)
 			h.crashSweep(true, false, o.Pick(400, 1500), seed+2, rng, false)
 			h.crashSweep(true, true, o.Pick(400, 1500), seed+3, rng, false)
+		}
+		if only("crash") {
+			// a wide fraction: thousands of field names, the token table spans several index blocks; every restart
+			// searches by the fields of a sample of documents
+			os.Setenv("VERIF_WIDE", "1")
+			h.crashSweep(false, false, o.Pick(400, 1200), seed+9, rng, false)
+			os.Unsetenv("VERIF_WIDE")
+		}
+		if only("concurrent") {
+			for i := 0; i < o.Pick(2, 6); i++ {
+				h.concurrentSeals(o.Pick(5, 6), o.Pick(500, 1500), seed+80+int64(10*i))
+			}
 		}
 		if only("load") {
 			h.loaderChannel(rng)
@@ -1619,6 +1738,7 @@ func main() {
 	rep.AddOracle(h.orReseal)
 	rep.AddOracle(h.orOffsets)
 	rep.AddOracle(h.orBig)
+	rep.AddOracle(h.orConc)
 	rep.AddOracle(h.orSys)
 	rep.AddOracle(h.orSdocs)
 	sort.SliceStable(rep.Violations, func(i, j int) bool { return rep.Violations[i].Site < rep.Violations[j].Site })
